@@ -127,6 +127,18 @@ func textDumpGlyphs(t *canvas.Text) string {
 }
 
 // Bodies is the menu; the first PoolUsers entries use the sweep-line pools.
+// drawGamma: an opaque and a translucent fill rasterized in a gamma colour space.
+func drawGamma(g float64) string {
+	c := canvas.New(6, 6)
+	ctx := canvas.NewContext(c)
+	ctx.SetFillColor(color.RGBA{200, 90, 30, 255})
+	ctx.DrawPath(1, 1, cv.Path(bowtie))
+	ctx.SetFillColor(color.RGBA{20, 60, 100, 128})
+	ctx.DrawPath(2, 1, cv.Path(triA))
+	img := rasterizer.Draw(c, canvas.DPMM(4), canvas.GammaColorSpace{Gamma: g})
+	return fmt.Sprintf("%x", sha1.Sum(img.Pix))
+}
+
 // shapeDump: the shaped glyphs and widths of two strings for one face.
 func shapeDump(f *canvas.FontFace) string {
 	s := ""
@@ -246,6 +258,18 @@ var Bodies = []Body{
 		ctx.SetFillColor(color.RGBA{200, 0, 0, 255})
 		ctx.DrawPath(1, 1, cv.Path(bowtie))
 		img := rasterizer.Draw(c, canvas.DPMM(4), canvas.LinearColorSpace{})
+		return fmt.Sprintf("%x", sha1.Sum(img.Pix))
+	}},
+	// rasterizations in colour spaces with different parameters (anything tabulated per colour space
+	// must be keyed by its parameters)
+	{Name: "rasterizer.Draw GammaColorSpace(1.43)", Hist: true, Run: func() string { return drawGamma(1.43) }},
+	{Name: "rasterizer.Draw GammaColorSpace(2.2)", Hist: true, Run: func() string { return drawGamma(2.2) }},
+	{Name: "rasterizer.Draw SRGBColorSpace", Hist: true, Run: func() string {
+		c := canvas.New(6, 6)
+		ctx := canvas.NewContext(c)
+		ctx.SetFillColor(color.RGBA{200, 90, 30, 255})
+		ctx.DrawPath(1, 1, cv.Path(bowtie))
+		img := rasterizer.Draw(c, canvas.DPMM(4), canvas.SRGBColorSpace{})
 		return fmt.Sprintf("%x", sha1.Sum(img.Pix))
 	}},
 	{Name: "Flatten+Dash(curve)", Run: func() string {
